@@ -375,12 +375,19 @@ theorem skel_registry :
     Gen.Skel.CreateConnection = ["streamMgr.CreateStream", "connLock.Lock", "connLock.Unlock"] ∧
     Gen.Skel.StreamManager_CreateStream = ["mu.Lock", "mu.Unlock", "factory.NewStreamProcessor"] := by decide
 
-/-- `SendCommandToClient` = `route`: local registry first, then `FindClientNode`. -/
+/-- `SendCommandToClient` = `route`: local registry first, then `FindClientNode`; the HTTP-proxy and DNS
+forwarders take the same decision from the same lookup. -/
 theorem skel_routing :
     Gen.Skel.SendCommandToClient = ["GetControlConnectionByClientID", "sendCommandLocal", "sendCommandCrossNode"] ∧
     Gen.Skel.sendCommandCrossNode = ["connStateStore.FindClientNode", "crossNodePool.Get", "WriteFrame", "ReadFrame"] ∧
     Gen.Skel.SendHTTPProxyRequest = ["GetControlConnectionByClientID", "sendHTTPProxyRequestLocal",
-      "connStateStore.FindClientNode", "sendHTTPProxyRequestCrossNode"] := by decide
+      "connStateStore.FindClientNode", "sendHTTPProxyRequestCrossNode"] ∧
+    Gen.Skel.handleDNSQueryCrossNode.take 2 = ["connStateStore.FindClientNode", "crossNodePool.Get"] := by decide
+
+/-- The server wires one `connstate.Store` over the configured storage into the session manager. -/
+theorem skel_wiring : Gen.Skel.HandlersComponent_Initialize =
+    ["session.NewConnectionStateStore", "SessionMgr.SetConnectionStateStore", "session.NewCrossNodePool",
+     "SessionMgr.SetCrossNodePool"] := by decide
 
 /-- The hybrid storage sends shared keys to the shared cache for reads and writes alike. -/
 theorem skel_hybrid :
